@@ -2,8 +2,8 @@ SPECIFICATION Spec
 CONSTANTS
   N = 4
   Txns = {1, 2}
-  ByteRMW = TRUE
-  EarlyRelease = FALSE
+  ByteRMW = FALSE
+  EarlyRelease = TRUE
   FreeFirst = FALSE
   CancelAlloc = FALSE
 INVARIANTS NeverTwice Coherent
